@@ -164,7 +164,7 @@ extern "C" void c11_decision(void)
         vf_reach("auth-not-shared");
     }
     if (auth && stored)
-        vf_reach(sharedOk ? "auth-shared-stored" : "auth-no-cache-exception-stored");
+        reachEither(sharedOk, "auth-shared-stored", "auth-no-cache-exception-stored");
     reachAnswer(answer);
     WITNESS_POINT();
 }
@@ -279,9 +279,9 @@ static void headers(const Field *repF, const unsigned nRep, const Field *reqF, c
         // the only way such a reply may be stored is the USE_HTTP_VIOLATIONS no-cache exception, and then only for revalidation
         vf_assert(!stored || revalidateAlways,
                   "the reply to a request with credentials is stored without public/must-revalidate/s-maxage only if every hit must be revalidated");
-        vf_reach(stored ? "auth-no-cache-exception-stored" : "auth-not-shared");
+        reachEither(stored, "auth-no-cache-exception-stored", "auth-not-shared");
     }
-    if (stored) vf_reach(auth ? "auth-stored" : "stored");
+    if (stored) reachEither(auth, "auth-stored", "stored");
     WITNESS_POINT();
 }
 
@@ -335,6 +335,6 @@ extern "C" void c11_request_veto(void)
         vf_assert(!cachable, "a request with Cache-Control: no-store is vetoed for caching");
         vf_reach("request-no-store");
     }
-    vf_reach(cachable ? "cachable" : "vetoed");
+    reachEither(cachable, "cachable", "vetoed");
     WITNESS_POINT();
 }
